@@ -410,6 +410,8 @@ def run(chk):
     check_following(chk, prog, sim)
     check_history_adapter(chk, prog, sim)
     check_time_getters(chk, prog, sim)
+    import selftest
+    selftest.expect(chk, "C15", check_writers, "C15.W", "a free function storing SettableData::last_request", "rogue_request")
     chk.assume("i64 overflow of clock/offset arithmetic not modelled (overflow-assert panic leaves ignored)",
                "Settable::set etc. analysed generically over Self: required methods (impl_set, get_settable_data_*) are oracles")
     chk.extra["std_models"] = sorted(sim.stats["models_used"])
